@@ -2,7 +2,7 @@
 
 use crate::rng::Rng;
 use crate::scenario::*;
-use crate::streamgen::{gen_opts, gen_patterns, gen_stream, spare_choices};
+use crate::streamgen::{gen_opts, gen_patterns, gen_patterns_ext, gen_stream, spare_choices};
 use crate::tscen::*;
 
 fn pal(rng: &mut Rng) -> Vec<u8> {
@@ -17,7 +17,7 @@ fn pal(rng: &mut Rng) -> Vec<u8> {
 fn gen_searcher(rng: &mut Rng, pal: &[u8], many_ok: bool) -> SearcherSpec {
     let packed = rng.chance(1, 6);
     // rarely 100-300 patterns (the automatic kind selection switches representation)
-    let mut patterns = gen_patterns(rng, pal, many_ok && !packed);
+    let mut patterns = gen_patterns_ext(rng, pal, many_ok && !packed, false);
     if packed {
         patterns.truncate(12);
     } else if rng.chance(1, 12) {
@@ -413,6 +413,20 @@ pub fn gen_thread(class: &str, seed: u64, idx: u64) -> ThreadScenario {
         }
         sc.searchers.push(s);
     }
+    // searchers with many patterns are expensive to rebuild for every reference operation
+    let many_patterns = sc.searchers.iter().any(|s| s.patterns.len() > 12);
+    if many_patterns {
+        for s in sc.searchers.iter_mut() {
+            if s.patterns.len() > 12 {
+                if s.opts.surface == Surface::Dfa {
+                    s.opts.surface = Surface::Top;
+                }
+                if s.opts.kind == Kind::Dfa {
+                    s.opts.kind = Kind::Auto;
+                }
+            }
+        }
+    }
     let maxhay = if class == "miri" { 64 } else { 200 };
     let big_hay = class != "miri" && !long_patterns && r.chance(1, 15);
     let nh = r.range(3, 5);
@@ -467,7 +481,7 @@ pub fn gen_thread(class: &str, seed: u64, idx: u64) -> ThreadScenario {
         // mostly short histories; some long and a few very long ones on the same
         // long-lived searcher (adaptive heuristics / counters with thresholds)
         // long-pattern scenarios carry kilobytes per operation: keep the scripts short
-        "hist" if long_patterns || big_hay => (1, 8, 30),
+        "hist" if long_patterns || big_hay || many_patterns => (1, 8, 30),
         "hist" => match r.weighted(&[80, 15, 5]) {
             0 => (1, 12, 40),
             1 => (1, 100, 300),
@@ -475,7 +489,7 @@ pub fn gen_thread(class: &str, seed: u64, idx: u64) -> ThreadScenario {
         },
         "miri" => (r.range(2, 3), 1, 3),
         _ => {
-            if r.chance(1, 10) && !long_patterns && !big_hay {
+            if r.chance(1, 10) && !long_patterns && !big_hay && !many_patterns {
                 (r.range(2, 3), 20, 60)
             } else if r.chance(1, 12) {
                 (r.range(5, 6), 2, 5)
